@@ -253,6 +253,38 @@ def date_variants(name, slices, **opts):
     return s()
 
 
+_edge_cache = {}
+
+
+def edge_pool(name, **opts):
+    """Valid numbers with every character of the class at the first two and last two positions, for one base number per
+    length occurring in the pool (leading zeros, rare first letters, every check character)."""
+    key = (name, tuple(sorted(opts.items())), core.get_today())
+    if key in _edge_cache:
+        return _edge_cache[key]
+    out, seen, lengths = [], set(), {}
+    for v in pool(name, **opts):
+        lengths.setdefault(len(v), v)
+    m = core.number_modules()[name]
+    for v in list(lengths.values())[:4]:
+        if len(v) > 40:
+            continue
+        for pos in sorted(set([0, 1, len(v) - 2, len(v) - 1])):
+            if not 0 <= pos < len(v) or not cls(v[pos]):
+                continue
+            for c in cls(v[pos]):
+                if c == v[pos]:
+                    continue
+                w = synth(name, v, [(pos, c)], opts)
+                if w:
+                    o = core.out(m.validate, w, **opts)
+                    if o[0] == 'ok' and isinstance(o[1], str) and o[1] not in seen:
+                        seen.add(o[1])
+                        out.append(o[1])
+    _edge_cache[key] = out
+    return out
+
+
 def valid_numbers(name, raw_fraction=4, **opts):
     """Strategy: canonical valid numbers of `name` (corpus + synthesised)."""
     p = pool(name, **opts)
@@ -262,9 +294,13 @@ def valid_numbers(name, raw_fraction=4, **opts):
         raise core.NoSeeds('no valid example found for new module %s' % name)
     m = core.number_modules()[name]
     extra = extra_valid(name) if not opts else None
+    edge = edge_pool(name, **opts)
 
     @st.composite
     def s(draw):
+        if edge and draw(st.integers(0, 7)) == 0:
+            stats['edge_pool'] += 1
+            return draw(st.sampled_from(edge))
         if extra is not None and draw(st.integers(0, 3)) == 0:
             # registry-walking / constructive generator (reaches registry branches the corpus does not contain)
             o = core.out(m.validate, draw(extra))
@@ -314,6 +350,21 @@ def valid_numbers(name, raw_fraction=4, **opts):
 def extra_valid(name):
     """Constructive generators for registry-backed formats whose interesting inputs same-class mutation rarely reaches.
     Returns a strategy of candidate strings (validity is decided by the tree at use) or None."""
+    if name == 'de.handelsregisternummer':
+        m = core.number_modules()[name]
+        courts = sorted(set(list(getattr(m, 'GERMAN_COURTS', ())) + list(getattr(m, '_courts', {}).values())))
+        aliases = sorted(getattr(m, '_courts', {}).keys())
+
+        @st.composite
+        def s(draw):
+            court = draw(st.one_of(st.sampled_from(courts), st.sampled_from(courts + aliases)))
+            reg = draw(st.sampled_from(['HRA', 'HRB', 'PR', 'GnR', 'VR']))
+            nr = str(draw(st.integers(1, 999999)))
+            x = draw(st.sampled_from(['', '', ' B', ' FL']))
+            if draw(st.booleans()):
+                return '%s %s %s%s' % (court, reg, nr, x)
+            return '%s %s%s, %s' % (reg, nr, x, court)
+        return s()
     if name == 'cfi':
         import os
         from vf.refs import numdbref
@@ -462,7 +513,7 @@ def probe(name):
     m = core.number_modules()[name]
     norm = _norm_fn(m)
     p = pool(name)[:4]
-    info = {'neutral': [], 'prefixes': [], 'suffixes': [], 'lower': False}
+    info = {'neutral': [], 'prefixes': [], 'suffixes': [], 'lower': False, 'upper': False}
     if not p:
         _probe_cache[name] = info
         return info
@@ -493,6 +544,7 @@ def probe(name):
             info['suffixes'].append(suf)
     if any(c.isalpha() for v in p for c in v):
         info['lower'] = same(lambda v: v.lower())
+        info['upper'] = same(lambda v: v.upper()) and any(v.upper() != v for v in p)
     _probe_cache[name] = info
     return info
 
@@ -521,6 +573,14 @@ def decorations(name, base):
             elif mode == 2:
                 flips = draw(st.lists(st.booleans(), min_size=len(chars), max_size=len(chars)))
                 chars = [c.lower() if f else c for c, f in zip(chars, flips)]
+        if pr.get('upper'):
+            # formats whose canonical form is lower case (Bech32 addresses): upper-case everything or single characters
+            mode = draw(st.integers(0, 3))
+            if mode == 1:
+                chars = [c.upper() for c in chars]
+            elif mode == 2:
+                flips = draw(st.lists(st.booleans(), min_size=len(chars), max_size=len(chars)))
+                chars = [c.upper() if f else c for c, f in zip(chars, flips)]
         # insertions at drawn positions (every position reachable, incl. both ends)
         k = draw(st.integers(0, 4))
         for _ in range(k):
@@ -703,6 +763,31 @@ def option_strategy(name):
     if name in t:
         return st.one_of(st.just({}), t[name])
     return st.just({})
+
+
+def option_lists(name):
+    """Finite list of kwargs dicts (specs) for validate() of module `name`: every documented option value."""
+    t = {
+        'at.tin': [{'office': o} for o in AT_OFFICES],
+        'damm': [{'table': core.enc(DAMM_TABLE2)}, {'table': None}],
+        'de.handelsregisternummer': [{'company_form': c} for c in COMPANY_FORMS],
+        'de.stnr': [{'region': r} for r in DE_REGIONS + ['Atlantis', '']],
+        'fi.hetu': [{'allow_temporary': b} for b in (True, False)],
+        'gs1_128': [{'separator': x} for x in ('', '\x1d', '|')],
+        'iban': [{'check_country': b} for b in (True, False)],
+        'isan': [{'strip_check_digits': a, 'add_check_digits': b} for a in (True, False) for b in (True, False)],
+        'isbn': [{'convert': b} for b in (True, False)],
+        'iso7064.mod_37_2': [{'alphabet': a} for a in ('0123456789X', '0123456789ABCDEFGHIJKLMNOPQRSTUVWXYZ*')],
+        'iso7064.mod_37_36': [{'alphabet': a} for a in ('0123456789', '0123456789ABCDEFGHIJKLMNOPQRSTUVWXYZ')],
+        'kr.rrn': [{'allow_future': b} for b in (True, False)],
+        'lt.asmens': [{'validate_birth_date': b} for b in (True, False)],
+        'luhn': [{'alphabet': a} for a in ('0123456789', '0123456789abcdef', 'abcdef')],
+        'mac': [{'validate_manufacturer': b} for b in (None, True, False)],
+        'meid': [{'strip_check_digit': b} for b in (True, False)],
+        'mx.curp': [{'validate_check_digits': b} for b in (True, False)],
+        'mx.rfc': [{'validate_check_digits': b} for b in (True, False)],
+    }
+    return [{}] + t.get(name, [])
 
 
 def dec_opts(opts):
